@@ -8,6 +8,7 @@ import WhVerif.Lemmas.C01WitnessAlleles
 import WhVerif.Lemmas.C01Input
 import WhVerif.Lemmas.C01InputSort
 import WhVerif.Lemmas.C01CkptMain
+import WhVerif.Lemmas.C01U32
 /-!
 # C01 — property theorems (about the model `WhVerif.C01` of `PedigreeDPTable`)
 
@@ -458,5 +459,89 @@ example : True := by
 example : InCols exampleInst := mkInst_inCols _ _ _ _ _ _ _ exampleRaw_ok
 example : (superReadsOf exampleLong [(1, 0), (1, 0), (5, 0), (2, 0), (1, 0)]).getD 1 none = some [(0, 1)] := by
   decide +kernel
+
+
+/-! ## 32-bit arithmetic
+
+Every cost of the solver is an `unsigned int`, `UINT_MAX` doubles as "infinite", additions wrap.
+Model/C01U32.lean is the DP in that arithmetic (`dpCost32`, `throws32` = the "Mendelian conflict" exception);
+`ubAll I` = all read weights + the largest genotype cost of every individual in every column + two
+recombinations per trio and column (the recombination term is also added in column 0, where the unbounded model
+ignores it). -/
+
+example : INF32 = 4294967295 := by decide
+
+/-- every value the DP ever forms — each `val` of the inner loop over the previous transmission values, in the
+order the code adds (column cost + previous projection entry, then + recombination), not only the minima it
+keeps — is bounded by the weights, genotype costs and recombination costs of the columns seen so far -/
+theorem dp_values_bounded (I : Inst) (c idx t j x : Nat) (ht : t < I.ntrans) (hj : j < I.ntrans)
+    (h : termO I c (prevOf I c) idx t j = some x) : x ≤ ubUpTo I c :=
+  (values_bounded I c).1 idx t j x ht hj h
+
+/-- … hence every DP cell, every projection entry and the optimum -/
+theorem dp_cells_bounded (I : Inst) (c idx t v : Nat) (ht : t < I.ntrans)
+    (h : dpCell I c (prevOf I c) idx t = some v) : v ≤ ubUpTo I c :=
+  dpCell_bounded I c idx t v ht h
+
+theorem dp_table_bounded (I : Inst) (c k x : Nat) (h : (tableAt I c).getD k none = some x) : x ≤ ubUpTo I c :=
+  (values_bounded I c).2 k x h
+
+theorem dp_optimum_bounded (I : Inst) (v : Nat) (h : dpCost I = some v) : v ≤ ubAll I := dpCost_bounded I v h
+
+/-- **No overflow**: below the bound the DP in wrap-around `unsigned int` arithmetic with `UINT_MAX` as infinity
+returns exactly the value of the unbounded model (`UINT_MAX` standing for "infeasible") -/
+theorem no_overflow (I : Inst) (hb : ubAll I < INF32) : dpCost32 I = enc32 (dpCost I) := dpCost32_eq I hb
+
+/-- … which, for sorted reads, is the true (Ped)MEC optimum -/
+theorem no_overflow_optimal (I : Inst) (h : WF I) (hb : ubAll I < INF32) : dpCost32 I = enc32 (optCost I) := by
+  rw [dpCost32_eq I hb, dp_optimal I h]
+
+/-- every intermediate table of the 32-bit DP is the encoding of the unbounded table -/
+theorem no_overflow_tables (I : Inst) (hb : ubAll I < INF32) (c : Nat) (hc : c < I.ncols) :
+    tableAt32 I c = (tableAt I c).map enc32 := tableAt32_eq I hb c hc
+
+/-- below the bound `get_cost()` never returns `UINT_MAX` for a feasible column: the exception "Mendelian
+conflict" is thrown iff some column admits no allele assignment under any transmission value -/
+theorem conflict32_iff (I : Inst) (hb : ubAll I < INF32) :
+    throws32 I = true ↔ ∃ c, c < I.ncols ∧ ∀ t, t < I.ntrans → assignments I c t = [] := throws32_iff I hb
+
+/-! Non-vacuity, and the bound is not idle: two reads contradicting a homozygous genotype with weight 2^31 each
+cost 2^32 — the 32-bit DP reports 0; with weights summing to `UINT_MAX` the feasible column is taken for a
+Mendelian conflict. -/
+example : ubAll exampleLong = 50 := by decide +kernel
+example : dpCost32 exampleLong = 1 := by
+  rw [no_overflow exampleLong (by decide +kernel)]; decide +kernel
+
+def exampleOverflow (w1 w2 : Nat) : Inst :=
+  { ncols := 1
+    reads := [ { ind := 0, first := 0, last := 0, entries := [(0, 1, w1)] },
+               { ind := 0, first := 0, last := 0, entries := [(0, 1, w2)] } ]
+    nind := 1, trios := [], geno := [[[some 0, none, none]]], recomb := [0] }
+
+example : dpCost (exampleOverflow (2 ^ 31) (2 ^ 31)) = some (2 ^ 32) ∧ dpCost32 (exampleOverflow (2 ^ 31) (2 ^ 31)) = 0 ∧
+    throws32 (exampleOverflow (2 ^ 31) (2 ^ 31)) = false ∧ ubAll (exampleOverflow (2 ^ 31) (2 ^ 31)) = 2 ^ 32 := by
+  decide +kernel
+example : dpCost (exampleOverflow (2 ^ 31) (2 ^ 31 - 1)) = some INF32 ∧
+    throws32 (exampleOverflow (2 ^ 31) (2 ^ 31 - 1)) = true := by decide +kernel
+example : ubAll (exampleOverflow (2 ^ 31) (2 ^ 31 - 2)) < INF32 ∧
+    dpCost32 (exampleOverflow (2 ^ 31) (2 ^ 31 - 2)) = 2 ^ 32 - 2 ∧
+    throws32 (exampleOverflow (2 ^ 31) (2 ^ 31 - 2)) = false := by decide +kernel
+example : ∀ x, dpCost exampleLong = some x → x ≤ 50 := by
+  intro x hx
+  have := dp_optimum_bounded exampleLong x hx
+  rwa [show ubAll exampleLong = 50 from by decide +kernel] at this
+example : ∀ v, dpCell exampleLong 2 (prevOf exampleLong 2) 5 0 = some v → v ≤ ubUpTo exampleLong 2 :=
+  fun v h => dp_cells_bounded exampleLong 2 5 0 v (by decide) h
+example : (dpCell exampleLong 2 (prevOf exampleLong 2) 5 0).isSome = true := by decide +kernel
+example : ∀ x, termO exampleLong 2 (prevOf exampleLong 2) 5 0 0 = some x → x ≤ ubUpTo exampleLong 2 :=
+  fun x h => dp_values_bounded exampleLong 2 5 0 0 x (by decide) (by decide) h
+example : ∀ x, (tableAt exampleLong 2).getD 1 none = some x → x ≤ ubUpTo exampleLong 2 :=
+  fun x h => dp_table_bounded exampleLong 2 1 x h
+example : dpCost32 exampleLong = enc32 (optCost exampleLong) :=
+  no_overflow_optimal exampleLong exampleLong_wf (by decide +kernel)
+example : tableAt32 exampleLong 1 = (tableAt exampleLong 1).map enc32 :=
+  no_overflow_tables exampleLong (by decide +kernel) 1 (by decide)
+example : throws32 exampleLong = false := by decide +kernel
+example : throws32 exampleInst = false ∧ ubAll exampleInst < INF32 := by decide +kernel
 
 end WhVerif.Props.C01
